@@ -255,12 +255,15 @@ type world struct {
 	poisoned bool
 	dry      bool
 	// requests on which GetQueuesByParent's two lookup paths led to different verdicts
-	pathsDisagree int // validate only: an admitted request is not applied (concurrent admissions)
-	cfg           config
-	indexer       cache.Indexer
-	inf           cache.SharedIndexInformer
-	lister        schedulinglister.QueueLister
-	svc           *router.AdmissionService
+	pathsDisagree int
+	// a finalizer removal left children without their parent (known finding C10-child-under-terminating-parent):
+	// the generator ends the history there
+	orphaned bool // validate only: an admitted request is not applied (concurrent admissions)
+	cfg      config
+	indexer  cache.Indexer
+	inf      cache.SharedIndexInformer
+	lister   schedulinglister.QueueLister
+	svc      *router.AdmissionService
 }
 
 func newWorld(cfg config, q0 []qspec) *world {
@@ -498,15 +501,19 @@ func (w *world) step1(r request) int64 {
 		if old == nil {
 			return vNotInvoked
 		}
-		// (modelled for a queue without children that is neither root nor default)
+		// the API server drops the object unconditionally, children or not (root and default can never be
+		// terminating: their DELETE is always refused)
 		kids := 0
 		for _, o := range w.indexer.List() {
 			if o.(*schedulingv1beta1.Queue).Spec.Parent == old.Name {
 				kids++
 			}
 		}
-		if kids == 0 && r.q.name != 1 && r.q.name != 2 && !w.dry {
+		if r.q.name != 1 && r.q.name != 2 && !w.dry {
 			w.indexer.Delete(old)
+			if kids > 0 {
+				w.orphaned = true // children of the removed queue now name a parent that does not exist
+			}
 		}
 		return vAllowed
 	}
@@ -766,6 +773,56 @@ func run(sel int, in []int64) []int64 {
 // 101 tree shape, 102 per-queue resources, 103 children sums, 104 capability vs
 // nearest ancestor, 105 delete guard as the code implements it, 106 the capacity plugin accepts the
 // final hierarchy, 107 no admitted DELETE of a queue with allocated pods (full strength).
+// orphanSig: the mechanism of known finding C10-child-under-terminating-parent occurred in the history - the
+// finalizer of a TERMINATING queue (an admitted DELETE with finalizer came before) was removed while queues
+// admitted under it still name it as parent.  Computed from the tokens and the verdicts; only law 101 carries it.
+func orphanSig(h history, got []int64) string {
+	type sh struct {
+		parent int64
+		term   bool
+	}
+	shadow := map[int64]*sh{}
+	for _, q := range h.q0 {
+		if _, dup := shadow[q.name]; !dup {
+			shadow[q.name] = &sh{parent: q.parent}
+		}
+	}
+	for i, r := range h.reqs {
+		if got[2*i+1] != vAllowed {
+			continue
+		}
+		e, exists := shadow[r.q.name]
+		switch r.kind {
+		case kCreate:
+			if !exists {
+				shadow[r.q.name] = &sh{parent: r.q.parent}
+			}
+		case kUpdate:
+			if exists {
+				e.parent = r.q.parent
+			}
+		case kDelete:
+			delete(shadow, r.q.name)
+		case kDeleteFin:
+			if exists {
+				e.term = true
+			}
+		case kGone:
+			if exists && r.q.name > 2 {
+				kids := false
+				for _, x := range shadow {
+					kids = kids || x.parent == r.q.name
+				}
+				if kids && e.term {
+					return "C10-child-under-terminating-parent"
+				}
+				delete(shadow, r.q.name)
+			}
+		}
+	}
+	return ""
+}
+
 func laws(sel int, in, got []int64, law func(lsel int, lin []int64, sig string)) {
 	if sel != 1 {
 		return // concurrent pairs break the invariant by construction: no law is demanded of them
@@ -776,7 +833,7 @@ func laws(sel int, in, got []int64, law func(lsel int, lin []int64, sig string))
 	for i := range h.reqs {
 		lin = append(lin, got[2*i+1])
 	}
-	law(101, lin, "")
+	law(101, lin, orphanSig(h, got))
 	law(102, lin, "")
 	law(103, lin, "")
 	law(104, lin, "")
@@ -824,7 +881,8 @@ func laws(sel int, in, got []int64, law func(lsel int, lin []int64, sig string))
 				for _, x := range shadow {
 					kids = kids || x.parent == r.q.name
 				}
-				if exists && !kids && r.q.name > 2 {
+				_ = kids
+				if exists && r.q.name > 2 {
 					delete(shadow, r.q.name)
 				}
 			}
